@@ -776,7 +776,10 @@ sz_metadata* SZ_getMetadata(unsigned char* bytes)
 	metadata->sizeType = exe_params->SZ_SIZE_TYPE;
 	metadata->dataSeriesLength = dataSeriesLength;
 
-	metadata->conf_params = confparams_dec;
+	//the caller owns the metadata (example/sz.c frees conf_params and the struct): give it its own copy of the
+	//parameters instead of a pointer to the global block that SZ_decompress and SZ_Finalize keep using
+	metadata->conf_params = (sz_params*)malloc(sizeof(sz_params));
+	memcpy(metadata->conf_params, confparams_dec, sizeof(sz_params));
 
 	int defactoNBBins = 0; //real # bins
 	if(isConstant==0 && isLossless==0)
